@@ -3,6 +3,7 @@ package main
 import (
 	"bufio"
 	"compress/gzip"
+	"crypto/sha1"
 	"encoding/hex"
 	"encoding/json"
 	"errors"
@@ -71,22 +72,23 @@ type Exec struct {
 	stats   map[string]int
 	aborted bool
 	// file-operation observation (only with the shimmed copy of the package)
-	fsops       []string // classified mutations of the current call
-	nmut        int      // mutations so far in this history
-	crashAt     int      // stop the process just before the n-th mutation (0 = never)
-	failAt      int      // fail the n-th mutation with an I/O error (0 = never)
-	curCall     func() string
-	stateOut    string
-	failed      bool
-	lower       bool
-	mu          *sync.Mutex
-	sink        func(line string) // when set, trace lines go there instead of `out`
-	before      string            // observation sweep taken before the current call (fault mode)
-	aidxTargets map[string]reflect.Value
-	shadow      bool       // a second collection (type U) shares the database and the Schema value
-	noise       *rand.Rand // PRNG of the calls made on it
-	shadowIDs   []string
-	reported    bool
+	fsops           []string // classified mutations of the current call
+	nmut            int      // mutations so far in this history
+	crashAt         int      // stop the process just before the n-th mutation (0 = never)
+	failAt          int      // fail the n-th mutation with an I/O error (0 = never)
+	curCall         func() string
+	stateOut        string
+	failed          bool
+	lower           bool
+	mu              *sync.Mutex
+	sink            func(line string) // when set, trace lines go there instead of `out`
+	before          string            // observation sweep taken before the current call (fault mode)
+	aidxTargets     map[string]reflect.Value
+	realtimeFlusher bool       // a create of this history asked for a flusher that can fire on its own
+	shadow          bool       // a second collection (type U) shares the database and the Schema value
+	noise           *rand.Rand // PRNG of the calls made on it
+	shadowIDs       []string
+	reported        bool
 }
 
 // A twin of the flusher's polling loop: a goroutine of this process that sleeps in the same 100 ms
@@ -445,6 +447,7 @@ func (e *Exec) Run(op Op) {
 		sod.LowercaseNames = op.Lower
 		e.lower = op.Lower
 		e.shadow = op.Shadow && !shimEnabled
+		e.realtimeFlusher = false
 		e.noise = rand.New(rand.NewSource(int64(e.lines)*131 + 7))
 		shimInstall(e.hook)
 		e.db = sod.Open(e.root)
@@ -469,6 +472,9 @@ func (e *Exec) Run(op Op) {
 		sch.Cache = op.Cache
 		if op.AThr > 0 {
 			sch.Asynchrone(op.AThr, time.Duration(op.AMs)*time.Millisecond)
+			if op.AThr < 1000 || op.AMs < 3600*1000 {
+				e.realtimeFlusher = true
+			}
 		}
 		for _, l := range leaves {
 			fmt.Fprintf(call, " d=%s|%s|%s|%s", l.Path, l.Type, l.Cast, consOf(op.Cons, l.Path))
@@ -515,6 +521,7 @@ func (e *Exec) Run(op Op) {
 		e.curCall = call
 		res := guard(func() string { return errClass(e.db.InsertOrUpdate(t)) })
 		e.emit(call(), res)
+		e.simgAfterFailure(res)
 
 	case "many", "bulk":
 		objs := make([]sod.Object, 0, len(op.Specs))
@@ -581,8 +588,18 @@ func (e *Exec) Run(op Op) {
 		} else {
 			res = guard(func() string {
 				var ch chan sod.Object
-				if op.Alt == 1 {
+				if op.Alt == 1 && op.Wrong == 0 {
 					ch = sod.ToObjectChan(ts)
+				} else if op.Alt == 2 {
+					// a pipeline: the producer reads the database between two sends
+					ch = make(chan sod.Object)
+					go func() {
+						defer close(ch)
+						for _, o := range objs {
+							e.db.Count(&T{})
+							ch <- o
+						}
+					}()
 				} else {
 					ch = make(chan sod.Object)
 					go func() {
@@ -600,6 +617,7 @@ func (e *Exec) Run(op Op) {
 			})
 		}
 		e.emit(full(), res)
+		e.simgAfterFailure(res)
 
 	case "del":
 		u := e.uuidOfK(op.K)
@@ -807,7 +825,14 @@ func (e *Exec) Run(op Op) {
 		}))
 	case "repair":
 		e.curCall = func() string { return "repair" }
+		before := e.objectFiles()
 		res := guard(func() string { return errClass(e.db.Repair(&T{})) })
+		defer func() {
+			// Repair indexes and un-indexes; it never writes, replaces or deletes an object file
+			if !shimEnabled {
+				e.emit("repairfiles", sameFiles(before, e.objectFiles()))
+			}
+		}()
 		e.emit("repair", res)
 		if res == "E:unique" {
 			// files are re-indexed in map order: which ones made it before the conflict is
@@ -850,7 +875,11 @@ func (e *Exec) Run(op Op) {
 
 	case "dropentry":
 		u := e.uuidOfK(op.K)
-		e.tamperSchema(func(m map[string]interface{}) { dropEntry(m, u, op.N == 1) })
+		if op.N == 2 {
+			e.tamperSchema(func(m map[string]interface{}) { dupOid(m, u) })
+		} else {
+			e.tamperSchema(func(m map[string]interface{}) { dropEntry(m, u, op.N == 1) })
+		}
 		e.emit(fmt.Sprintf("dropentry %d %d", e.handle(u), op.N), "ok")
 
 	case "reshape":
@@ -1446,4 +1475,108 @@ func (e *Exec) shadowNoise() {
 	case 8:
 		e.db.All(&U{})
 	}
+}
+
+// simgAfterFailure: a write call that returns an error must leave schema.json as the model says
+// (commits forgotten or done twice on error paths show only in the file, or to a second handle)
+func (e *Exec) simgAfterFailure(res string) {
+	if shimEnabled || e.realtimeFlusher || strings.HasSuffix(res, "ok") || strings.HasSuffix(res, "PANIC") {
+		return
+	}
+	e.emit("simg", e.schemaImage())
+}
+
+// dupOid: in the first field index (name order) the entry that FOLLOWS the entry of the object
+// (the one before it when it is the last) is made to name that object too.
+func dupOid(m map[string]interface{}, uuid string) {
+	idx, ok := m["index"].(map[string]interface{})
+	if !ok {
+		return
+	}
+	ids, _ := idx["object-ids"].(map[string]interface{})
+	oid := ""
+	for k, v := range ids {
+		if v == uuid {
+			oid = k
+		}
+	}
+	fields, _ := idx["fields"].(map[string]interface{})
+	names := []string{}
+	for n := range fields {
+		names = append(names, n)
+	}
+	sort.Strings(names)
+	if oid == "" || len(names) == 0 {
+		return
+	}
+	fi := fields[names[0]].(map[string]interface{})
+	entries, _ := fi["index"].([]interface{})
+	for i, en := range entries {
+		t := en.([]interface{})
+		if fmt.Sprintf("%v", t[1]) == oid {
+			j := i + 1
+			if j >= len(entries) {
+				j = i - 1
+			}
+			if j >= 0 {
+				o := entries[j].([]interface{})
+				o[1] = t[1]
+			}
+			return
+		}
+	}
+}
+
+type fileID struct {
+	info os.FileInfo
+	sum  string
+}
+
+// objectFiles: every entry of the collection directory except schema.json, with its identity
+// (inode) and content hash
+func (e *Exec) objectFiles() map[string]fileID {
+	defer e.rawLock()()
+	out := map[string]fileID{}
+	d := e.collDir()
+	if d == "" {
+		return out
+	}
+	entries, _ := os.ReadDir(d)
+	for _, en := range entries {
+		if en.Name() == sod.SchemaFilename || en.IsDir() {
+			continue
+		}
+		info, err := en.Info()
+		if err != nil {
+			continue
+		}
+		data, _ := os.ReadFile(filepath.Join(d, en.Name()))
+		out[en.Name()] = fileID{info: info, sum: fmt.Sprintf("%x", sha1.Sum(data))}
+	}
+	return out
+}
+
+func sameFiles(a, b map[string]fileID) string {
+	diffs := []string{}
+	for n, x := range a {
+		y, ok := b[n]
+		switch {
+		case !ok:
+			diffs = append(diffs, "deleted:"+n)
+		case x.sum != y.sum:
+			diffs = append(diffs, "modified:"+n)
+		case !os.SameFile(x.info, y.info):
+			diffs = append(diffs, "replaced:"+n)
+		}
+	}
+	for n := range b {
+		if _, ok := a[n]; !ok {
+			diffs = append(diffs, "created:"+n)
+		}
+	}
+	if len(diffs) == 0 {
+		return "same"
+	}
+	sort.Strings(diffs)
+	return strings.Join(diffs, ",")
 }
